@@ -315,6 +315,7 @@ class C19(Check):
                     # killed: no status, no promise; just go on
                     run(argv, kill=True)
                     res.probe("step_killed_before_exit_handlers")
+                    res.fault("process_killed_before_exit_handlers")
                     flags.add("killed:" + name)
                     prev = None      # no valid "before" state any more
                     continue
